@@ -27,6 +27,8 @@ type parseContext struct {
 	caseInsensitive   map[lexer.TokenType]bool
 	apply             []*contextFieldSet
 	allowTrailing     bool
+	// Raw cursor of the first token consumed since the innermost capture began, or -1.
+	captureStart lexer.RawCursor
 }
 
 func newParseContext(lex *lexer.PeekingLexer, lookahead int, caseInsensitive map[lexer.TokenType]bool) parseContext {
@@ -34,6 +36,7 @@ func newParseContext(lex *lexer.PeekingLexer, lookahead int, caseInsensitive map
 		PeekingLexer:    *lex,
 		caseInsensitive: caseInsensitive,
 		lookahead:       lookahead,
+		captureStart:    -1,
 	}
 }
 
@@ -79,6 +82,7 @@ func (p *parseContext) ApplyFrom(from int) error {
 func (p *parseContext) Accept(branch *parseContext) {
 	p.apply = append(p.apply, branch.apply...)
 	p.PeekingLexer = branch.PeekingLexer
+	p.captureStart = branch.captureStart
 	if branch.deepestErrorDepth >= p.deepestErrorDepth {
 		p.deepestErrorDepth = branch.deepestErrorDepth
 		p.deepestError = branch.deepestError
@@ -98,6 +102,14 @@ func (p *parseContext) MaybeUpdateError(err error) {
 		p.deepestError = err
 		p.deepestErrorDepth = p.PeekingLexer.Cursor()
 	}
+}
+
+// consume the token at "cursor", skipping any elided tokens before it.
+func (p *parseContext) consume(cursor lexer.RawCursor) {
+	if p.captureStart < 0 {
+		p.captureStart = cursor
+	}
+	p.FastForward(cursor)
 }
 
 // Stop returns true if parsing should terminate after the given "branch" failed to match.
